@@ -62,6 +62,7 @@ def run(ctx):
                         "cap(m.Data) = len(m.Data) for a decoded in-memory mdat"]
     exe, model = build(ctx)
     pr = ctx.proofs("c08", "C08Theorems.v")
+    pr3 = ctx.proofs("c08", "C08ExtTheorems.v")
     # composition with C09's sample-table model (coq/c09, another property's files, imported read-only): only
     # attempted when those files build; a break inside coq/c09 is C09's alarm, not a C08 violation
     pr2 = None
@@ -92,8 +93,8 @@ def run(ctx):
         key = (p[0], ctxf if p[0] != "F" else "", "\t".join(p[2:]))
         if any(x.startswith("o:") for x in p[2:]):
             distinct.add(key)
-    kinds = {k: sum(1 for l in lines if l.startswith(k + "\t")) for k in ("F", "R", "H", "S", "T", "W", "M")}
-    hyp = {"R": 0, "S": 0, "W": 0}
+    kinds = {k: sum(1 for l in lines if l.startswith(k + "\t")) for k in ("F", "R", "H", "S", "T", "W", "M", "G", "E", "P")}
+    hyp = {"R": 0, "S": 0, "W": 0, "G": 0, "E": 0}
     for l, r in zip(lines, res):
         if r.endswith(" H"):
             hyp[l[0]] = hyp.get(l[0], 0) + 1
@@ -102,7 +103,9 @@ def run(ctx):
     ctx.notes["correspondence"] = {"cases": len(lines), "mismatches": len(mism), "distinct_cases_with_ok_outcome": len(distinct),
                                    "kinds": kinds, "exhaustive_payload_len": exh,
                                    "cases_satisfying_theorem_hypotheses": {"C08_read_equal (R)": hyp["R"], "C08_copy_samples (S)": hyp["S"],
-                                                                           "C08_tree_equal (W)": hyp["W"]},
+                                                                           "C08_tree_equal (W)": hyp["W"],
+                                                                           "C08_frag_tree_equal (G)": hyp["G"],
+                                                                           "C08_file_encode (E)": hyp["E"]},
                                    "panic_outcomes": sum(l.count("\tp") for l in lines),
                                    "error_outcomes": sum(l.count("\te") for l in lines)}
     rl = [l for l in lines if l.startswith("R\t")]
@@ -141,6 +144,7 @@ def run(ctx):
                        "model_says": mism[0][:2000]},
                       "model/implementation disagree on %d cases" % len(mism), no_input=True)
     ctx.proof_violation_if_broken(pr, "c08 search: %d evaluations, no failing input" % ctx.notes.get("search_evaluations", 0))
+    ctx.proof_violation_if_broken(pr3, "c08 search: %d evaluations, no failing input" % ctx.notes.get("search_evaluations", 0))
     if pr2 is not None:
         ctx.proof_violation_if_broken(pr2, "c08 search: %d evaluations, no failing input" % ctx.notes.get("search_evaluations", 0))
     ctx.cov["rule"] = ("corr: %d synthesized files (free boxes before/after, 8- and 16-byte mdat headers, payload 0..%d) decoded by the real "
